@@ -21,7 +21,7 @@ RULE = ("Hypothesis systems whose network is mass-balanced by construction (inte
         "stoichiometric matrix restricted to species without any chemostated entry (own Fraction Gaussian "
         "elimination); for every basis vector c, sum_i c . x[:, i] at every sample equals its value at "
         "sample 0: exactly for tau-leap and Gillespie (integers in doubles), within 1e-9 x sum |c||x| for "
-        "Euler. Facet diffusion: reactions removed, every unflagged species' total is constant. "
+        "Euler. Facet laws_around_chemostat: the same with a chemostated species placed between (in species order) two reacting unflagged species. Facet diffusion: reactions removed, every unflagged species' total is constant. "
         "Non-trivial: a law involving >= 2 species (or a diffusing species with a non-zero interface), the "
         "state changed during the run, >= 10 samples.")
 ASSUMPTIONS = ["left null space computed in vlib-free code of this file; reference diffusivities from vlib/ratelaw.py",
@@ -110,7 +110,7 @@ def balanced_reaction(draw, labels, masses):
 
 
 @st.composite
-def case(draw, pure_diffusion=False):
+def case(draw, pure_diffusion=False, around_chemostat=False):
     base = draw(gen.system_spec(variety="mild", max_species=4, max_reactions=0, max_cells=12, max_axis=4, min_species=2,
                                 chemostats="none", state="explicit", count_exp=(0, 2), rate_exp=(-1, 0), simple_graph=False))
     labels = [s["label"] for s in base["species"]]
@@ -136,11 +136,37 @@ def case(draw, pure_diffusion=False):
             reactions.append({"sub": sub, "prod": prod, "units": {"mode": "omit", "sys": dict(base["net_units"]["sys"])},
                               "kf": kq(nf), "kr": kq(nb) if draw(st.booleans()) else {"si": "0/1", "form": "bare", "sys": dict(gen.DEFAULT), "style": 0},
                               "label": None, "eq_form": "str"})
+    if around_chemostat and len(labels) >= 3:
+        # reactions between the species on both sides (in species order) of a chemostated one
+        lo, hi = labels[0], labels[-1]
+        masses[hi] = masses[lo]
+        forms = [({lo: 1}, {hi: 1}), ({lo: 2}, {hi: 2}), ({lo: 1, hi: 1}, {hi: 2}), ({lo: 2}, {lo: 1, hi: 1})]
+        for r, (sub, prod) in zip(reactions, draw(st.permutations(forms))):
+            old_f, old_b = sum(r["sub"].values()), sum(r["prod"].values())
+            sp_ = base["space"]
+            v0 = gen.pf(sp_["cell_vol"]["si"]) if sp_["type"] == "grid" else gen.pf(sp_["nodes"][0]["vol"]["si"])
+            for key, old, new in (("kf", old_f, sum(sub.values())), ("kr", old_b, sum(prod.values()))):
+                q_ = r[key]
+                c_ = gen.pf(q_["si"]) * v0 ** (1 - old) * F(10) ** (2 * max(0, old - 1) - 2 * max(0, new - 1))
+                r[key] = dict(q_, si=gen.fs(c_ * v0 ** (new - 1)))
+            r["sub"], r["prod"] = dict(sub), dict(prod)
     spec["reactions"] = reactions
     n_cells = gen.space_size(spec["space"])
     flags = None
+    if around_chemostat and len(labels) >= 3:
+        which = draw(st.integers(1, len(labels) - 2))
+        flags = [0] * (len(labels) * n_cells)
+        for i in range(n_cells):
+            if draw(st.integers(0, 3)):
+                flags[which * n_cells + i] = 1
+        spec["chemostats"] = flags
+        return {"sys": spec, "masses": masses, "engine": draw(st.sampled_from(["euler", "tauleap", "gillespie", "tauleap"])),
+                "steps": draw(st.integers(20, 400)), "seed": draw(st.integers(0, 2 ** 32 - 1)),
+                "route": draw(st.sampled_from(["ctor", "dict"])), "mode": draw(st.sampled_from(["auto", "none"]))}
     if draw(st.integers(0, 2)) == 0:
-        which = draw(st.integers(0, len(labels) - 1))
+        # prefer a species in the middle of the species order: an engine that mishandles the flag of species k
+        # while updating the species around it only shows when k sits between two reacting, unflagged species
+        which = draw(st.integers(1, len(labels) - 2)) if len(labels) >= 3 and draw(st.integers(0, 3)) else draw(st.integers(0, len(labels) - 1))
         flags = [0] * (len(labels) * n_cells)
         for i in range(n_cells):
             if draw(st.booleans()):
@@ -241,11 +267,16 @@ def strat_laws(ctx):
     return case(False)
 
 
+def strat_around(ctx):
+    return case(False, True)
+
+
 def strat_diffusion(ctx):
     return case(True)
 
 
 FACETS = [
     Facet("laws", check_laws, strategy=strat_laws, examples=(900, 30000), shards=(12, 16), setup=sim.setup_plain),
+    Facet("laws_around_chemostat", check_laws, strategy=strat_around, examples=(400, 10000), shards=(8, 16), setup=sim.setup_plain),
     Facet("diffusion", check_diffusion, strategy=strat_diffusion, examples=(500, 15000), shards=(4, 16), setup=sim.setup_plain),
 ]
